@@ -61,6 +61,13 @@ pub struct Profile {
     pub pk_types: Vec<Ty>,
     /// Per 100: all data low-cardinality (no unique id), so compaction picks dictionary encoding.
     pub low_card_pct: u64,
+    /// Per 100: a generated key repeats an earlier key (of any table: ids are global, so this
+    /// is also what makes the key sets of two tables overlap).
+    pub dup_key_pct: u64,
+    /// Per 100: a generated key is taken from another table with the same key type.
+    pub borrow_key_pct: u64,
+    /// Per 100: a new table's primary key gets the key type of an existing table.
+    pub same_key_type_pct: u64,
     /// Primary keys only at column 0 (what the storage range scan supports).
     pub pk_first_only: bool,
     /// Projections of range queries keep the key column first.
@@ -91,6 +98,9 @@ impl Profile {
             pk_pct: 50,
             pk_types: vec![Ty::Int],
             low_card_pct: 15,
+            dup_key_pct: 8,
+            borrow_key_pct: 0,
+            same_key_type_pct: 0,
             pk_first_only: false,
             key_first_projection: false,
         }
@@ -180,7 +190,7 @@ impl<'a> Gen<'a> {
 
     fn key_val(&mut self, ty: Ty) -> Val {
         // primary keys: mostly fresh, sometimes duplicates of earlier keys
-        let dup = self.rng.chance(1, 12);
+        let dup = self.rng.chance(self.prof.dup_key_pct, 100);
         match ty {
             Ty::Int | Ty::BigInt | Ty::SmallInt => {
                 if dup {
@@ -241,7 +251,17 @@ impl<'a> Gen<'a> {
         let mut cols = vec![];
         for i in 0..ncols {
             let (ty, nullable) = if pk == Some(i) {
-                (*self.rng.pick(&self.prof.pk_types.clone()), false)
+                let existing: Vec<Ty> = self
+                    .model
+                    .tables
+                    .values()
+                    .filter_map(|(d, _)| d.pk.map(|p| d.cols[p].ty))
+                    .collect();
+                if !existing.is_empty() && self.rng.chance(self.prof.same_key_type_pct, 100) {
+                    (existing[self.rng.usize(existing.len())], false)
+                } else {
+                    (*self.rng.pick(&self.prof.pk_types.clone()), false)
+                }
             } else {
                 (
                     *self
@@ -287,7 +307,34 @@ impl<'a> Gen<'a> {
             let mut r = vec![];
             for (i, c) in def.cols.iter().enumerate() {
                 if def.pk == Some(i) && !self.low_card {
-                    r.push(self.key_val(c.ty));
+                    // sometimes a key that another table of the same key type already holds
+                    // (joins on primary keys then match some rows and not others)
+                    let mut borrowed = None;
+                    if self.rng.chance(self.prof.borrow_key_pct, 100) {
+                        let donors: Vec<Val> = self
+                            .model
+                            .tables
+                            .values()
+                            .filter(|(d, rows)| {
+                                d.name != def.name
+                                    && !rows.is_empty()
+                                    && d.pk.is_some_and(|p| d.cols[p].ty == c.ty)
+                            })
+                            .map(|(d, rows)| rows[rows.len() / 2][d.pk.unwrap()].clone())
+                            .collect();
+                        if !donors.is_empty() {
+                            // a key near the donor's median key: existing or a neighbour
+                            let v = donors[self.rng.usize(donors.len())].clone();
+                            borrowed = Some(match (&v, self.rng.usize(3)) {
+                                (Val::Int(k), 1) => Val::Int(k + 1),
+                                _ => v,
+                            });
+                        }
+                    }
+                    match borrowed {
+                        Some(v) => r.push(v),
+                        None => r.push(self.key_val(c.ty)),
+                    }
                 } else {
                     r.push(self.val(c.ty, c.nullable && def.pk != Some(i)));
                 }
@@ -461,10 +508,11 @@ impl<'a> Gen<'a> {
             .filter(|d| d.cols[d.pk.unwrap()].ty == ak.ty)
             .cloned()
             .collect();
-        let b = if self.rng.chance(1, 3) {
+        let others: Vec<TableDef> = partners.iter().filter(|d| d.name != a.name).cloned().collect();
+        let b = if others.is_empty() || self.rng.chance(1, 4) {
             a.clone()
         } else {
-            partners[self.rng.usize(partners.len())].clone()
+            others[self.rng.usize(others.len())].clone()
         };
         let bk = b.cols[b.pk.unwrap()].clone();
         let int_of = |d: &TableDef| -> Option<String> {
@@ -494,7 +542,50 @@ impl<'a> Gen<'a> {
             }
             p.sql()
         };
-        let sql = match self.rng.usize(7) {
+        let shape = self.rng.usize(13);
+        if shape >= 9 {
+            // ORDER BY over a join on primary keys (an outer join's NULL-extended side is not
+            // ordered by its key although the merge join consumes it in key order)
+            let jt = *self
+                .rng
+                .pick(&["JOIN", "LEFT JOIN", "RIGHT JOIN", "FULL JOIN"]);
+            let desc = self.rng.chance(1, 4);
+            let (ord, pos) = if self.rng.chance(1, 2) {
+                (format!("y.{}", bk.name), 1usize)
+            } else {
+                (format!("x.{}", ak.name), 0usize)
+            };
+            let yb = other(self, &b);
+            let sql = format!(
+                "SELECT x.{}, y.{}, y.{yb} FROM {} x {jt} {} y ON x.{} = y.{} ORDER BY {ord}{}",
+                ak.name,
+                bk.name,
+                a.name,
+                b.name,
+                ak.name,
+                bk.name,
+                if desc { " DESC" } else { "" }
+            );
+            return Some(Stmt::RawOrdered { sql, keys: vec![(pos, desc)] });
+        }
+        if shape >= 7 {
+            // semi / anti joins on primary keys
+            let neg = if self.rng.chance(1, 3) { "NOT " } else { "" };
+            let xa = other(self, &a);
+            let sql = if shape == 7 {
+                format!(
+                    "SELECT {}, {xa} FROM {} WHERE {} {neg}IN (SELECT {} FROM {})",
+                    ak.name, a.name, ak.name, bk.name, b.name
+                )
+            } else {
+                format!(
+                    "SELECT x.{}, x.{xa} FROM {} x WHERE {neg}EXISTS (SELECT 1 FROM {} y WHERE y.{} = x.{})",
+                    ak.name, a.name, b.name, bk.name, ak.name
+                )
+            };
+            return Some(Stmt::Raw(sql));
+        }
+        let sql = match shape {
             0 | 1 | 2 => {
                 let jt = *self
                     .rng
@@ -925,6 +1016,58 @@ impl<'a> Gen<'a> {
             out.push(s);
         }
         out
+    }
+
+    /// Directed history for plans that depend on the storage order: two or three tables with
+    /// primary keys of one type and overlapping key sets, filled by several inserts (several
+    /// row-sets), then a batch of joins / aggregations / subqueries on the keys.
+    pub fn join_scenario(&mut self) -> Vec<Step> {
+        let mut steps = vec![];
+        let mut apply = |g: &mut Self, s: Stmt, steps: &mut Vec<Step>| {
+            if !matches!(g.model.expect(&s), Expect::Err(_)) {
+                g.model.apply(&s);
+            }
+            steps.push(Step::Stmt(s));
+        };
+        self.prof.pk_pct = 100;
+        self.prof.same_key_type_pct = 100;
+        self.prof.borrow_key_pct = 45;
+        let nt = 2 + self.rng.usize(2);
+        let mut names = vec![];
+        for _ in 0..nt {
+            let d = self.gen_table();
+            names.push(d.name.clone());
+            apply(self, Stmt::CreateTable(d), &mut steps);
+        }
+        for round in 0..(2 + self.rng.usize(3)) {
+            for n in names.clone() {
+                if round > 0 && self.rng.chance(1, 3) {
+                    continue;
+                }
+                let s = self.gen_insert(&n);
+                apply(self, s, &mut steps);
+            }
+            if self.rng.chance(1, 3) {
+                let n = names[self.rng.usize(names.len())].clone();
+                let def = self.model.tables[&n].0.clone();
+                let pred = self.gen_pred(&def, false);
+                apply(self, Stmt::Delete { table: n, pred }, &mut steps);
+            }
+            if self.rng.chance(1, 4) {
+                steps.push(Step::Advance { ms: 1500 });
+            }
+        }
+        for _ in 0..(8 + self.rng.usize(8)) {
+            if let Some(q) = self.gen_order_plan_query() {
+                steps.push(Step::Stmt(q));
+            }
+            if self.rng.chance(1, 6) {
+                let n = names[self.rng.usize(names.len())].clone();
+                let s = self.gen_insert(&n);
+                apply(self, s, &mut steps);
+            }
+        }
+        steps
     }
 
     pub fn history(&mut self) -> Vec<Step> {
